@@ -849,8 +849,9 @@ func init() {
 
 func init() {
 	register(&PropSpec{
-		ID:   "C16",
-		Pkgs: []string{"joinserver"},
+		ID:        "C16",
+		TimeoutMs: 120000, // the confirmation queries with the AES inverse axioms take up to 10 s unloaded
+		Pkgs:      []string{"joinserver"},
 		Items: func(tier string, seed int64) []Item {
 			var it []Item
 			for cf := 0; cf <= 1; cf++ {
